@@ -412,7 +412,7 @@ class Judge:
             if cl['kind'] == 'raw':
                 raw_present = True
                 for op in cl['ops']:
-                    if op[0] in ('s', 'p') and isinstance(op[-1], dict):
+                    if op[0] in ('s', 'p', 'C', 'B') and isinstance(op[-1], dict):
                         raw_maybe |= int(op[-1].get('services', 0))
         for rd in rounds:
             T = rd['t']
@@ -453,6 +453,19 @@ class Judge:
         TY = {'TOKEN_CNF': 9, 'TOKEN_IND': 10, 'NOTIFY_CNF': 12, 'RECLAIM_REQ': 13}
         holds = []
         askers = 0
+        withdrawals = []        # (time, client): it left, released its request or lowered it to "priority only"
+        for idx, name, kind, tl in self.tok_events:
+            for e in tl:
+                if e[0] == 'gone':
+                    withdrawals.append((e[1], name))
+                elif kind == 'lib' and e[0] == 'not0' and (e[2] & CHN_RELEASE):
+                    withdrawals.append((e[1], name))
+                elif kind == 'lib' and e[0] == 'req0' and not e[3]:
+                    withdrawals.append((e[1], name))
+                elif kind == 'raw' and e[0] == 'send':
+                    for pm in (e[2].get('parts') or [e[2]]):
+                        if pm.get('release') or pm.get('fault_kills') or (pm.get('t') == 'CHN_TOKEN_REQ' and not pm.get('ask')):
+                            withdrawals.append((e[1], name))
         for idx, name, kind, tl in self.tok_events:
             asked_t = None           # time of the last valid request sent
             released_t = None        # completion time of a RELEASE after which no request was sent
@@ -601,8 +614,15 @@ class Judge:
                     continue
                 a_end = a[1] if a[1] is not None else float('inf')
                 if b[0] < a_end:
-                    # the holder had been asked to give the token back and had not answered yet: shape of finding F14
-                    shape = ':holder-had-reclaim-pending' if a[4] else ''
+                    # The holder had been asked to give the token back and had not answered yet.  Finding F14 needs in addition
+                    # that the daemon re-schedules the holder, i.e. that some other client left or withdrew its request while
+                    # the holder held the token; without such an event this is a different defect.
+                    if a[4] and any(a[0] <= t <= b[0] + 0.002 and who != a[2] for t, who in withdrawals):
+                        shape = ':holder-had-reclaim-pending'
+                    elif a[4]:
+                        shape = ':during-reclaim-window'
+                    else:
+                        shape = ''
                     self.v(P + ':token-two-holders' + shape, '%s holds the token from %.6f (%s) until %s%s; %s was granted it at %.6f (%s)'
                            % (a[2], a[0], a[3], 'the end' if a[1] is None else '%.6f' % a[1],
                               ' and had not answered a reclaim request' if a[4] else '', b[2], b[0], b[3]))
